@@ -1448,6 +1448,9 @@ class PathEval:
                         terms = [p.end[1]] if p.end[0] == "return" else []
                         for e in p.events:
                             terms += [v for v in e.data.values() if isinstance(v, tuple)]
+                            if e.kind == "store" and isinstance(e.place, tuple) and mentions(e.place, lambda x: x[0] == "call" and x[1].endswith("::new_uninit") and "Box" in x[1]) \
+                                    and not mentions(e.place, lambda x: x[0] in ("loc", "havoc", "mutated", "param")):
+                                continue        # the element store of `vec![..]` into its fresh allocation (the vector itself is modelled as into_vec([..]))
                             if e.kind == "store" and not (isinstance(e.place, tuple) and mentions(e.place, lambda x: x[0] == "param")):
                                 ok = False      # a store that is not through a parameter (a callee-local aggregate being patched)
                         if any(mentions(t_, lambda x: x[0] in bad_heads) for t_ in terms if isinstance(t_, tuple)):
